@@ -105,8 +105,14 @@ class SimNet:
         self.op_of_task = {}         # task name -> op label (concurrent variant)
         self.latency = None          # callable() -> seconds
 
-    def register(self, scheme, host, port, handler):
-        self.servers[(scheme, host, port)] = handler
+    def register(self, scheme, host, port, handler, target=None):
+        """several servers may share one (scheme, host, port) and be told apart by request target
+        (path + query); target None = any target"""
+        self.servers.setdefault((scheme, host, port), {})[target] = handler
+
+    def handler_for(self, c, req):
+        hs = self.servers.get((c.scheme, c.host, c.port), {})
+        return hs.get(req.target) or hs.get(None)
 
     def _op(self):
         sim = self.sim
@@ -164,7 +170,15 @@ class SimNet:
             c.ev_recv = sim.log(f"net c{c.id} recv 500", quiet=bool(sim.in_probe))
             c.delivered = True
             return resp.to_bytes()
-        handler = self.servers[(c.scheme, c.host, c.port)]
+        handler = self.handler_for(c, req)
+        if handler is None:
+            c.ev_send = sim.log(f"net c{c.id} {req.method} {req.target} -> 404 (no such resource)", quiet=bool(sim.in_probe))
+            resp = HttpResponse(404, "Not Found", [("Content-Type", "text/plain")], b"not found")
+            c.response = resp
+            sim.yield_point("net.recv")
+            c.ev_recv = sim.log(f"net c{c.id} recv 404", quiet=bool(sim.in_probe))
+            c.delivered = True
+            return resp.to_bytes()
         c.server_saw = True
         c.ev_send = sim.log(f"net c{c.id} {req.method} {req.target} len={len(req.body)} -> server",
                             quiet=bool(sim.in_probe))
